@@ -136,6 +136,32 @@ partial def parseAll (r : List String) : Option (List WItem) :=
     let (v, r1) ← parseValue r
     let is ← parseAll r1
     some (.value (← self.toNat?) v :: is)
+  | "nv" :: self :: key :: r => do
+    -- a named variable (`ScriptVariable::Archive`): `<self> <name-hex | ->`, then the value
+    let (v, r1) ← parseValue r
+    let is ← parseAll r1
+    let k ← if key = "-" then some none else (bytes? key).map some
+    some (.named (← self.toNat?) k v :: is)
+  | "vl" :: tl :: th :: tli :: n :: r => do
+    -- `ScriptVariableList::Archive` = `con::set<const_str, ScriptVariable>::Archive`: the header numbers, then
+    -- `ScriptVariable::Archive` of every entry in the order of the writer's walk (`perm` over the insertion order)
+    let n ← n.toNat?
+    if r.length < n then none else
+    let perm ← (r.take n).mapM String.toNat?
+    let rec entries : Nat → List String → Option (List WItem × List String)
+      | 0, r => some ([], r)
+      | k + 1, self :: key :: r => do
+        let (v, r1) ← parseValue r
+        let (es, r2) ← entries k r1
+        let k ← if key = "-" then some none else (bytes? key).map some
+        some (.named (← self.toNat?) k v :: es, r2)
+      | _, _ => none
+    let (es, r1) ← entries n (r.drop n)
+    if perm.any (· ≥ n) then none else
+    let walk := perm.filterMap fun i => es[i]?
+    let is ← parseAll r1
+    some ([.item (.prim .u32 (← tl.toNat?)), .item (.prim .u32 (← th.toNat?)), .item (.prim .u32 n),
+           .item (.prim .u16 (← tli.toNat?))] ++ walk ++ is)
   | r => do
     let (i, r1) ← parseItem r
     let is ← parseAll r1
@@ -185,6 +211,7 @@ end
 def showW : WItem → String
   | .item i => showItem i
   | .value s v => s!"v {s} {showValue v}"
+  | .named s k v => s!"nv {s} {match k with | some b => toHex b | none => "-"} {showValue v}"
 
 def showWs (l : List WItem) : String := " ".intercalate (l.map showW)
 
@@ -217,6 +244,16 @@ partial def showWsD (d : Dict) : List WItem → List Nat → List String
   | .value s v :: ws, ids =>
     let a := showValueD d v ids
     s!"v {s} {a.1}" :: showWsD d ws a.2
+  | .named s none v :: ws, ids =>
+    let a := showValueD d v ids
+    s!"nv {s} - {a.1}" :: showWsD d ws a.2
+  | .named s (some _) v :: ws, ids =>
+    -- the name is the text its `const_str` denotes in the reading dictionary
+    let (name, ids) := match ids with
+      | i :: r => ((match d.text i with | some bs => toHex bs | none => "-"), r)
+      | [] => ("?", [])
+    let a := showValueD d v ids
+    s!"nv {s} {name} {a.1}" :: showWsD d ws a.2
 
 def showLoaded (L : Loaded) : String := " ".intercalate (showWsD L.dict L.items L.ids)
 
